@@ -136,7 +136,7 @@ def main(tier, seed):
     engine.selftest(eng)
     from props import c06, c08
     q = tier == "quick"
-    inits = [("c06", dict(c06.BASE), dict(alpha="c06", cmds=0, edits=0, max_cmds=3 if q else 4, max_edits=1 if q else 2, rich=not q)),
+    inits = [("c06", dict(c06.BASE), dict(alpha="c06", cmds=0, edits=0, max_cmds=3 if q else 4, max_edits=1, rich=not q)),
              ("c08", c08.base_tree(c08.DIRS), dict(alpha="c08", cmds=0, max_cmds=3 if q else 4, rich=not q))]
     # a long history (generation numbers pass 9 -> 10) in a root and a nested history
     longbase = ops.build(eng.local_ctx(), dict(c06.BASE), [ops.create("d", ["md5"])])
